@@ -2,6 +2,7 @@ package props
 
 import (
 	"fmt"
+	"go/token"
 	"sort"
 	"strconv"
 	"strings"
@@ -121,6 +122,7 @@ func runC09(c *eng.Ctx, thorough bool) {
 	}
 	notOnApplyPath := map[string]bool{"raft.fsmTxnCommitIndexTracker.sourceIndexMap": true}
 	reads := map[string][]string{}
+	readsValue := map[string]bool{} // some access lets the field's value flow somewhere that matters
 	var fns []*ssa.Function
 	for f := range reach {
 		fns = append(fns, f)
@@ -148,6 +150,9 @@ func runC09(c *eng.Ctx, thorough bool) {
 				case "raft.FSM", "raft.fsmTxnCommitIndexTracker", "raft.fsmTxnCommitIndexApplicationState":
 					k := owner + "." + fv.Name()
 					reads[k] = append(reads[k], eng.FuncName(f))
+					if !c09AccessUnobserved(in.(ssa.Value)) {
+						readsValue[k] = true
+					}
 				}
 			}
 		}
@@ -161,6 +166,8 @@ func runC09(c *eng.Ctx, thorough bool) {
 		who := uniqStr(reads[k])
 		if r, ok := table[k]; ok && !notOnApplyPath[k] {
 			c.OK(apply, "depends{"+k+"}", apply.Pos(), fmt.Sprintf("reviewed: %s (accessed in %s)", r, strings.Join(who, ", ")))
+		} else if _, tabled := table[k]; !tabled && !readsValue[k] {
+			c.OK(apply, "depends{"+k+"}", apply.Pos(), fmt.Sprintf("untabled field, but on the apply path it is only stored to / incremented / handed to metrics and logging: its value reaches no verdict, bucket write or recorded state (accessed in %s)", strings.Join(who, ", ")))
 		} else {
 			c.Violation(apply, "depends{"+k+"}", apply.Pos(), fmt.Sprintf("state read on the apply path is not in the reviewed dependence table (or is tabled as never read there): %s accessed in %s. The commit-or-conflict verdict may only depend on the log and on persisted state; review and classify this input", k, strings.Join(who, ", ")), nil)
 		}
@@ -169,16 +176,8 @@ func runC09(c *eng.Ctx, thorough bool) {
 	// nondeterminism sources on the apply path
 	for _, f := range fns {
 		for _, cl := range eng.Calls(f, `^(time\.Now|time\.Since|math/rand\..*|math/rand/v2\..*|crypto/rand\..*|os\.Getenv|os\.LookupEnv|runtime\.NumGoroutine)$`) {
-			// time.Now feeding only metrics is harmless: require that the value flows only into metrics calls
-			onlyMetrics := true
-			if v, ok := cl.(ssa.Value); ok && v.Referrers() != nil {
-				for _, r := range *v.Referrers() {
-					rc, isCall := r.(ssa.CallInstruction)
-					if !isCall || !strings.Contains(eng.CalleeName(rc.Common()), "go-metrics") {
-						onlyMetrics = false
-					}
-				}
-			}
+			// a clock/random value that only ends up in a metrics or log call is harmless: follow the value
+			onlyMetrics := c09OnlyObserved(cl)
 			if onlyMetrics {
 				c.OK(f, "nondeterminism{"+eng.CalleeName(cl.Common())+"}", cl.Pos(), "value flows only into metrics")
 			} else {
@@ -397,8 +396,36 @@ func runC09(c *eng.Ctx, thorough bool) {
 
 	// ---------- C09.3 trimming driven by the log
 	c.Clause("R5", "C09.3")
+	type trimSite struct {
+		call ssa.CallInstruction
+		arg  ssa.Value
+	}
+	var trims []trimSite
 	for _, ce := range eng.Calls(apply, `raft\.\(\*fsmTxnCommitIndexTracker\)\.clearOldEntries$`) {
-		arg := ce.Common().Args[1]
+		trims = append(trims, trimSite{ce, ce.Common().Args[1]})
+	}
+	// a function literal of ApplyBatch that merely forwards one of its parameters: the bound is what
+	// ApplyBatch hands to the literal
+	for _, clo := range eng.Closures(apply) {
+		for _, ce := range eng.Calls(clo, `raft\.\(\*fsmTxnCommitIndexTracker\)\.clearOldEntries$`) {
+			pi := -1
+			for i, p := range clo.Params {
+				if ce.Common().Args[1] == ssa.Value(p) {
+					pi = i
+				}
+			}
+			if pi < 0 {
+				continue
+			}
+			for _, cl := range eng.Calls(apply, `.`) {
+				if mc, ok := cl.Common().Value.(*ssa.MakeClosure); ok && mc.Fn == ssa.Value(clo) && pi < len(cl.Common().Args) {
+					trims = append(trims, trimSite{cl, cl.Common().Args[pi]})
+				}
+			}
+		}
+	}
+	for _, ts := range trims {
+		ce, arg := ts.call, ts.arg
 		okAll := true
 		var rs []string
 		for _, r := range eng.Roots(arg, nil) {
@@ -420,7 +447,7 @@ func runC09(c *eng.Ctx, thorough bool) {
 			c.Prov(f, "lowestActiveIndex assigned in the batch loop", st, st.Val, `\.LowestActiveIndex$`)
 		}
 	}
-	c.Floor(apply, "clearOldEntries after the batch", len(eng.Calls(apply, `clearOldEntries$`)), 1)
+	c.Floor(apply, "clearOldEntries after the batch", len(trims), 1)
 	raftTrimBoundSkip(c, "C09.3")
 
 	raftFastPath(c, "C09.4")
@@ -428,9 +455,9 @@ func runC09(c *eng.Ctx, thorough bool) {
 	// ---------- C09.5 verify everything, then write
 	if f := c.Fn("raft.(*FSM).applyBatchTxOps"); f != nil {
 		c.Clause("R3", "C09.5")
-		writes := instrsOf(eng.Calls(f, `bbolt\.Bucket\)\.(Put|Delete)$`))
+		writes := c09WriteSites(f)
 		vr := eng.Calls(f, `doVerify(Read|List)$`)
-		if c.Floor(f, "bucket writes", len(writes), 2) && c.Floor(f, "verification calls", len(vr), 2) {
+		if c.Floor(f, "bucket writes", c09WriteCount(f), 2) && c.Floor(f, "verification calls", len(vr), 2) {
 			c.NotAfter(f, "the first bucket write", writes, "a verification call", instrsOf(vr))
 			// a verification failure returns before any write
 			c.Clause("R4", "C09.5")
@@ -646,6 +673,316 @@ func raftTrimBoundSkip(c *eng.Ctx, clause string) {
 	}
 }
 
+// c09FastTrueEdges: the CFG edges of f on which a fast-path predicate
+// (canFastWrite / canFastWriteBypassRead / canFastWriteBypassList) is known to
+// have returned true. The set F of boolean values that can only be true if a
+// predicate returned true is closed under phis whose other inputs are false, or
+// the constant true arriving over an edge already in the result (a || b).
+func c09FastTrueEdges(f *ssa.Function) []eng.Edge {
+	inF := map[ssa.Value]bool{}
+	for _, cl := range eng.Calls(f, `fsmTxnCommitIndexApplicationState\)\.canFastWrite(Bypass(Read|List))?$`) {
+		if v, ok := cl.(ssa.Value); ok {
+			inF[v] = true
+		}
+	}
+	for _, cl := range eng.Calls(f, `fsmTxnCommitIndexTracker\)\.hasModified(List)?Entry$`) {
+		// inlined bypass predicate: the negation of the record's 'modified' answer
+		if found := eng.ResultValue(cl, 1); found != nil && found.Referrers() != nil {
+			for _, r := range *found.Referrers() {
+				if u, ok := r.(*ssa.UnOp); ok && u.Op == token.NOT {
+					inF[u] = true
+				}
+			}
+		}
+	}
+	edges := map[eng.Edge]bool{}
+	var out []eng.Edge
+	for changed := true; changed; {
+		changed = false
+		for v := range inF {
+			for _, e := range eng.BoolEdges(v, true) {
+				if !edges[e] {
+					edges[e] = true
+					out = append(out, e)
+					changed = true
+				}
+			}
+		}
+		for _, b := range f.Blocks {
+			for _, in := range b.Instrs {
+				p, ok := in.(*ssa.Phi)
+				if !ok || inF[p] {
+					continue
+				}
+				all := len(p.Edges) > 0
+				for i, e := range p.Edges {
+					switch {
+					case inF[e]:
+					case eng.Expr(e) == "false":
+					case eng.Expr(e) == "true":
+						pred, via := b.Preds[i], false
+						for si, sb := range pred.Succs {
+							if sb == b && edges[eng.Edge{From: pred, Succ: si}] {
+								via = true
+							}
+						}
+						if !via {
+							all = false
+						}
+					default:
+						all = false
+					}
+				}
+				if all {
+					inF[p] = true
+					changed = true
+				}
+			}
+		}
+	}
+	sort.Slice(out, func(i, j int) bool {
+		if out[i].From.Index != out[j].From.Index {
+			return out[i].From.Index < out[j].From.Index
+		}
+		return out[i].Succ < out[j].Succ
+	})
+	return out
+}
+
+// c09WriteSites: where f writes the data bucket: its own bucket writes and its
+// calls of functions of the package that (transitively, two levels) contain
+// bucket writes - a write loop extracted into a helper is still a write.
+func c09WriteSites(f *ssa.Function) []ssa.Instruction {
+	const pat = `bbolt\.Bucket\)\.(Put|Delete)$`
+	var writesIn func(g *ssa.Function, depth int) bool
+	writesIn = func(g *ssa.Function, depth int) bool {
+		if g == nil || g.Blocks == nil || !eng.InPkg(g, "raft") {
+			return false
+		}
+		if len(eng.Calls(g, pat)) > 0 {
+			return true
+		}
+		if depth == 0 {
+			return false
+		}
+		for _, cl := range eng.Calls(g, `^raft\.`) {
+			if h := cl.Common().StaticCallee(); h != nil && h != g && writesIn(h, depth-1) {
+				return true
+			}
+		}
+		return false
+	}
+	out := instrsOf(eng.Calls(f, pat))
+	for _, cl := range eng.Calls(f, `^raft\.`) {
+		if g := cl.Common().StaticCallee(); g != nil && g != f && writesIn(g, 1) {
+			out = append(out, cl)
+		}
+	}
+	return out
+}
+
+// c09WriteCount: the number of bucket writes behind c09WriteSites(f) (a helper
+// counts with the writes it contains), for vacuity floors.
+func c09WriteCount(f *ssa.Function) int {
+	const pat = `bbolt\.Bucket\)\.(Put|Delete)$`
+	n := 0
+	for _, in := range c09WriteSites(f) {
+		n++
+		if cl, ok := in.(ssa.CallInstruction); ok {
+			if g := cl.Common().StaticCallee(); g != nil && eng.InPkg(g, "raft") {
+				if k := len(eng.Calls(g, pat)); k > 1 {
+					n += k - 1
+				}
+			}
+		}
+	}
+	return n
+}
+
+func c09ObserverCall(cc *ssa.CallCommon) bool {
+	n := eng.CalleeName(cc)
+	return strings.Contains(n, "go-metrics") || strings.Contains(n, "go-hclog")
+}
+
+// c09OnlyObserved: the value produced at `from` (a clock reading, a random
+// number, a counter) flows only into metrics / logging calls - possibly through
+// arithmetic, conversions, time.* helpers, a variadic argument array, or the
+// parameter of a function literal it is handed to. Anything else (a branch, a
+// return, a store to shared memory, any other call) may carry it to a verdict.
+func c09OnlyObserved(from ssa.Instruction) bool {
+	v, ok := from.(ssa.Value)
+	if !ok {
+		return false
+	}
+	seen := map[ssa.Value]bool{}
+	var flows func(v ssa.Value, depth int) bool
+	useOK := func(v ssa.Value, r ssa.Instruction, depth int) bool {
+		switch x := r.(type) {
+		case *ssa.DebugRef:
+			return true
+		case *ssa.Convert, *ssa.ChangeType, *ssa.MakeInterface, *ssa.BinOp, *ssa.Phi, *ssa.Extract, *ssa.Field, *ssa.Slice, *ssa.ChangeInterface:
+			return flows(x.(ssa.Value), depth+1)
+		case *ssa.UnOp:
+			return flows(x, depth+1)
+		case *ssa.IndexAddr, *ssa.FieldAddr:
+			// address computed from a tainted local array/struct: its loads and the calls it is handed to
+			return flows(x.(ssa.Value), depth+1)
+		case *ssa.Store:
+			if x.Val != v {
+				return true // stored *into* a tainted local: nothing leaves
+			}
+			// the cell must be function-local: an Alloc, or an element/field of one
+			base := x.Addr
+			for {
+				switch a := base.(type) {
+				case *ssa.IndexAddr:
+					base = a.X
+					continue
+				case *ssa.FieldAddr:
+					base = a.X
+					continue
+				}
+				break
+			}
+			al, isAlloc := base.(*ssa.Alloc)
+			if !isAlloc {
+				return false
+			}
+			return flows(al, depth+1)
+		case ssa.CallInstruction:
+			cc := x.Common()
+			if c09ObserverCall(cc) {
+				return true
+			}
+			if n := eng.CalleeName(cc); strings.HasPrefix(n, "time.") || strings.HasPrefix(n, "(time.") {
+				if cv, isV := x.(ssa.Value); isV {
+					return flows(cv, depth+1)
+				}
+				return true
+			}
+			// handed to a function literal: follow the parameter
+			var fn *ssa.Function
+			switch cv := cc.Value.(type) {
+			case *ssa.MakeClosure:
+				fn, _ = cv.Fn.(*ssa.Function)
+			case *ssa.Function:
+				if cv.Parent() != nil {
+					fn = cv
+				}
+			}
+			if fn == nil || cc.IsInvoke() {
+				return false
+			}
+			for i, a := range cc.Args {
+				if a == v {
+					if i >= len(fn.Params) || !flows(fn.Params[i], depth+1) {
+						return false
+					}
+				}
+			}
+			if cv, isV := x.(ssa.Value); isV && cv.Referrers() != nil && len(*cv.Referrers()) > 0 {
+				return false // the literal's result is used: not followed
+			}
+			return true
+		}
+		return false
+	}
+	flows = func(v ssa.Value, depth int) bool {
+		if seen[v] {
+			return true
+		}
+		seen[v] = true
+		if depth > 12 {
+			return false
+		}
+		refs := v.Referrers()
+		if refs == nil {
+			return true
+		}
+		for _, r := range *refs {
+			if !useOK(v, r, depth) {
+				return false
+			}
+		}
+		return true
+	}
+	return flows(v, 0)
+}
+
+// c09AccessUnobserved: this access (FieldAddr / Field) of a struct field lets
+// the field's value flow nowhere that matters: it is only stored to, or loaded
+// to be incremented and stored back, or loaded into metrics / logging.
+func c09AccessUnobserved(acc ssa.Value) bool {
+	fa, ok := acc.(*ssa.FieldAddr)
+	if !ok {
+		return c09OnlyObserved(acc.(ssa.Instruction))
+	}
+	if fa.Referrers() == nil {
+		return true
+	}
+	// the same field of the same object, whichever address instruction computes it
+	sameCell := func(a ssa.Value) bool {
+		o, ok := a.(*ssa.FieldAddr)
+		return ok && (o == fa || (eng.FieldVar(o) == eng.FieldVar(fa) && eng.ExprDeep(o.X) == eng.ExprDeep(fa.X)))
+	}
+	for _, r := range *fa.Referrers() {
+		switch x := r.(type) {
+		case *ssa.DebugRef:
+		case *ssa.Call:
+			// an atomic counter: bumped or overwritten with the result dropped, or read into metrics/logging
+			n := eng.CalleeName(x.Common())
+			if !strings.HasPrefix(n, "(*sync/atomic.") || len(x.Call.Args) == 0 || x.Call.Args[0] != ssa.Value(fa) {
+				return false
+			}
+			switch {
+			case strings.HasSuffix(n, ").Add") || strings.HasSuffix(n, ").Store"):
+				if x.Referrers() != nil && len(*x.Referrers()) > 0 {
+					return false
+				}
+			case strings.HasSuffix(n, ").Load"):
+				if !c09OnlyObserved(x) {
+					return false
+				}
+			default:
+				return false
+			}
+		case *ssa.Store:
+			if x.Addr != ssa.Value(fa) {
+				return false // the address itself escapes
+			}
+		case *ssa.UnOp:
+			if x.Op != token.MUL || x.Referrers() == nil {
+				return false
+			}
+			for _, lr := range *x.Referrers() {
+				bo, isB := lr.(*ssa.BinOp)
+				if isB && (bo.Op == token.ADD || bo.Op == token.SUB) {
+					other := bo.Y
+					if bo.Y == ssa.Value(x) {
+						other = bo.X
+					}
+					if _, isC := other.(*ssa.Const); isC && bo.Referrers() != nil {
+						back := true
+						for _, br := range *bo.Referrers() {
+							st, isSt := br.(*ssa.Store)
+							if !isSt || !sameCell(st.Addr) {
+								back = false
+							}
+						}
+						if back {
+							continue
+						}
+					}
+				}
+				return false
+			}
+		default:
+			return false
+		}
+	}
+	return true
+}
+
 func uniqStr(xs []string) []string {
 	sort.Strings(xs)
 	var out []string
@@ -697,34 +1034,32 @@ func raftFastPath(c *eng.Ctx, clause string) {
 			c.Violation(f, "applied index == start index", f.Pos(), "canFastWrite no longer compares the applied index at the start of the batch with the transaction's start index", nil)
 		}
 	}
-	for fn, callee := range map[string]string{
-		"raft.(*fsmTxnCommitIndexApplicationState).canFastWriteBypassRead": `hasModifiedEntry$`,
-		"raft.(*fsmTxnCommitIndexApplicationState).canFastWriteBypassList": `hasModifiedListEntry$`,
-	} {
-		f := c.Fn(fn)
-		if f == nil {
-			continue
-		}
-		c.Clause("R5", clause)
-		cs := eng.Calls(f, callee)
-		if !c.Floor(f, "tracker query", len(cs), 1) {
-			continue
-		}
-		for _, q := range cs {
-			a := q.Common().Args
-			c.Prov(f, "window lower bound", q, a[1], `^field:s\.txnStartIndex$`)
-			c.Prov(f, "window upper bound", q, a[2], `^field:s\.commandIndex$`)
-			c.Prov(f, "key queried", q, a[3], `^param:key$`)
-		}
-		// result = !found
-		for _, r := range eng.Returns(f) {
-			s := eng.ExprDeep(r.Results[0])
-			if strings.HasPrefix(s, "!") && strings.Contains(s, "#1") {
-				c.OK(f, "bypass = !modified", r.Pos(), s)
-			} else {
-				c.Violation(f, "bypass = !modified", r.Pos(), "the bypass predicate is not the negation of the tracker's 'modified' answer: "+s, nil)
+	// every query of the record of recent writes on the apply path asks about exactly the
+	// (start, command] window; where the query sits in a bypass predicate of its own, the predicate
+	// is the negation of the answer (inlined into doVerify*, c09FastTrueEdges holds it to the same)
+	c.Clause("R5", clause)
+	if m, miss := c.P.StaticCallee("raft.(*fsmTxnCommitIndexTracker).hasModifiedEntry", "raft.(*fsmTxnCommitIndexTracker).hasModifiedListEntry"); len(miss) == 0 {
+		qs := c.P.FindCalls(m, func(fn *ssa.Function) bool { return eng.InPkg(fn, "raft") })
+		sort.Slice(qs, func(i, j int) bool { return qs[i].Call.Pos() < qs[j].Call.Pos() })
+		for _, q := range qs {
+			a := q.Call.Common().Args
+			c.Prov(q.Fn, "window lower bound", q.Call, a[1], `^field:s\.txnStartIndex$`)
+			c.Prov(q.Fn, "window upper bound", q.Call, a[2], `^field:s\.commandIndex$`)
+			if strings.Contains(eng.FuncName(q.Fn), "canFastWriteBypass") {
+				c.Prov(q.Fn, "key queried", q.Call, a[3], `^param:key$`)
+				for _, r := range eng.Returns(q.Fn) {
+					s := eng.ExprDeep(r.Results[0])
+					if strings.HasPrefix(s, "!") && strings.Contains(s, "#1") {
+						c.OK(q.Fn, "bypass = !modified", r.Pos(), s)
+					} else {
+						c.Violation(q.Fn, "bypass = !modified", r.Pos(), "the bypass predicate is not the negation of the tracker's 'modified' answer: "+s, nil)
+					}
+				}
 			}
 		}
+		c.Floor(nil, "queries of the record of recent writes", len(qs), 2)
+	} else {
+		c.Unresolved(strings.Join(miss, ", "))
 	}
 	for fn, spec := range map[string][2]string{
 		"raft.(*fsmTxnCommitIndexApplicationState).doVerifyRead": {`bbolt\.Bucket\)\.Get$`, `raft\.doVerifyEntry$`},
@@ -744,8 +1079,9 @@ func raftFastPath(c *eng.Ctx, clause string) {
 		for _, r := range eng.SuccessReturns(f, 0) {
 			nilRets = append(nilRets, r)
 		}
-		fast := eng.Or(eng.G(f, `canFastWrite\(\)$`, true), eng.G(f, `canFastWriteBypass(Read|List)\(\)$`, true))
-		blocked := append([]eng.Edge{}, fast.Edges...)
+		// the edges on which one of the fast predicates is known to have answered true: tested directly,
+		// through a flag it was assigned to, or through a short-circuit merge of them
+		blocked := c09FastTrueEdges(f)
 		for _, rd := range eng.Calls(f, spec[0]) {
 			blocked = append(blocked, eng.CallFailEdges(rd)...) // a failed storage read is returned as an error
 		}
